@@ -426,6 +426,19 @@ class Program:
                 return None
         return cur
 
+    def resolve_callee(self, module: Module, call_func, func: FuncInfo = None):
+        """resolve_expr, plus  self.<method>  inside a method of a class of the package (the receiver is the method's first parameter)"""
+        r = self.resolve_expr(module, call_func, func) if isinstance(call_func, (ast.Name, ast.Attribute)) else None
+        if r is not None:
+            return r
+        if func is not None and func.cls is not None and isinstance(call_func, ast.Attribute) and isinstance(call_func.value, ast.Name):
+            ps = func.params()
+            if ps and call_func.value.id == ps[0]:
+                ci = func.cls if isinstance(func.cls, ClassInfo) else None
+                if ci is not None and call_func.attr in ci.methods:
+                    return ci.methods[call_func.attr]
+        return None
+
     # ------------------------------------------------------------ const folding
     def const_value(self, ci: ConstInfo):
         k = ci.key
